@@ -256,6 +256,10 @@ func c17Name(r *vlib.Rng, addr, port string) (string, string) {
 			"Accepted password for root from 6.6.6.6 port 1 ssh2",
 			"ROOT LOGIN REFUSED FROM 6.6.6.6 port 1",
 			"error: Authentication key RSA SHA256:abc revoked by file /x",
+			"Accepted publickey for root from 6.6.6.6 port 1 ssh2: ED25519 SHA256:AAAAAAAAAAAAAAAAAAAAAAAAAAAAAAAAAAAAAAAAAAA",
+			"Accepted publickey for root from 6.6.6.6 port 1 ssh2: ED25519-CERT SHA256:AAAAAAAAAAAAAAAAAAAAAAAAAAAAAAAAAAAAAAAAAAA ID root@evil (serial 1) CA ED25519 SHA256:BBBBBBBBBBBBBBBBBBBBBBBBBBBBBBBBBBBBBBBBBBB",
+			"Invalid user root from 6.6.6.6 port 1",
+			"Failed password for root from 6.6.6.6 port 1 ssh2",
 		}), "other-keyword"
 	case 10:
 		return fmt.Sprintf("from %s port %s", addr, port), "same-peer-embedded"
